@@ -12,8 +12,11 @@ import (
 	"os"
 	"os/exec"
 	"path/filepath"
+	"runtime"
 	"sort"
+	"strconv"
 	"strings"
+	"sync"
 )
 
 type Mutant struct {
@@ -61,6 +64,7 @@ type SelftestResult struct {
 	Stale          []string         `json:"stale"`
 	Undetectable   []string         `json:"documented_not_statically_detectable"`
 	Details        []map[string]any `json:"details"`
+	Workers        int              `json:"parallel_workers,omitempty"`
 }
 
 func violKeys(r *Res, kf *KFFile) map[string]Obl {
@@ -99,16 +103,76 @@ func runVariant(repo string, overlay map[string][]byte, def *PropDef, kf *KFFile
 	return detected, fired, nil
 }
 
+// variantRunner analyses one variant of the tree (an overlay) and reports what fired.
+type variantRunner func(overlay map[string][]byte, expectRule, expectKey string) (detected bool, fired []string, err error)
+
+// runSelftest runs every stored variant of the tree through the rules of one property. The variants are independent
+// of each other (each is a fresh load of /repo with an overlay), so they are analysed in parallel: a first pass over
+// the variant lists only records the jobs, the jobs are run by a pool of workers, and a second, identical pass
+// consumes the results in the same order and does the bookkeeping.
 func runSelftest(repo, verif string, def *PropDef, kf *KFFile) SelftestResult {
-	var st SelftestResult
-	st.Missed, st.Stale, st.Undetectable = []string{}, []string{}, []string{}
 	// baseline violations on the unmodified tree (normally none)
 	bp, err := Load(repo, nil)
 	if err != nil {
-		st.Missed = append(st.Missed, "baseline load failed: "+err.Error())
+		var st SelftestResult
+		st.Missed, st.Stale, st.Undetectable = []string{"baseline load failed: " + err.Error()}, []string{}, []string{}
 		return st
 	}
 	base := violKeys(runProp(bp, def), kf)
+	type job struct {
+		overlay map[string][]byte
+		er, ek  string
+		det     bool
+		fired   []string
+		err     error
+	}
+	var jobs []*job
+	selftestPass(repo, verif, def, kf, bp, func(overlay map[string][]byte, er, ek string) (bool, []string, error) {
+		jobs = append(jobs, &job{overlay: overlay, er: er, ek: ek})
+		return false, nil, nil
+	})
+	workers := runtime.NumCPU() / 2
+	if workers > 8 {
+		workers = 8
+	}
+	if workers < 1 {
+		workers = 1
+	}
+	if v := os.Getenv("PKCHECK_SELFTEST_WORKERS"); v != "" {
+		if n, err := strconv.Atoi(v); err == nil && n > 0 {
+			workers = n
+		}
+	}
+	var wg sync.WaitGroup
+	next := make(chan *job)
+	for w := 0; w < workers; w++ {
+		wg.Add(1)
+		go func() {
+			defer wg.Done()
+			for j := range next {
+				j.det, j.fired, j.err = runVariant(repo, j.overlay, def, kf, base, j.er, j.ek)
+				j.overlay = nil
+			}
+		}()
+	}
+	for _, j := range jobs {
+		next <- j
+	}
+	close(next)
+	wg.Wait()
+	i := 0
+	st := selftestPass(repo, verif, def, kf, bp, func(overlay map[string][]byte, er, ek string) (bool, []string, error) {
+		j := jobs[i]
+		i++
+		return j.det, j.fired, j.err
+	})
+	st.Workers = workers
+	return st
+}
+
+func selftestPass(repo, verif string, def *PropDef, kf *KFFile, bp *Prog, run variantRunner) SelftestResult {
+	var st SelftestResult
+	st.Missed, st.Stale, st.Undetectable = []string{}, []string{}, []string{}
 
 	// 1. hand-written mutants
 	var muts []Mutant
@@ -132,7 +196,7 @@ func runSelftest(repo, verif string, def *PropDef, kf *KFFile) SelftestResult {
 			continue
 		}
 		ov := map[string][]byte{abs: []byte(mutated + m.Append)}
-		det, fired, err := runVariant(repo, ov, def, kf, base, m.ExpectRule, m.ExpectKey)
+		det, fired, err := run(ov, m.ExpectRule, m.ExpectKey)
 		d := map[string]any{"variant": "mutant:" + m.Name, "file": m.File, "expect_rule": m.ExpectRule, "expect_key": m.ExpectKey, "fired": fired}
 		if err != nil {
 			// a mutant that does not type-check is a bad mutant, not a missed detection
@@ -225,7 +289,7 @@ func runSelftest(repo, verif string, def *PropDef, kf *KFFile) SelftestResult {
 			// any new violation counts as detection there
 			er, ek = "", ""
 		}
-		det, fired, err := runVariant(repo, ov, def, kf, base, er, ek)
+		det, fired, err := run(ov, er, ek)
 		d := map[string]any{"variant": name, "summary": meta.Summary, "expect_rule": er, "fired": fired}
 		if err != nil {
 			st.Stale = append(st.Stale, name+" (does not type-check)")
@@ -253,7 +317,7 @@ func runSelftest(repo, verif string, def *PropDef, kf *KFFile) SelftestResult {
 			st.Stale = append(st.Stale, name+" (patch does not apply: "+err.Error()+")")
 			continue
 		}
-		_, fired, err := runVariant(repo, ov, def, kf, base, "\x00none", "")
+		_, fired, err := run(ov, "\x00none", "")
 		if err != nil {
 			st.Stale = append(st.Stale, name+" (does not type-check)")
 			continue
